@@ -544,3 +544,75 @@ Definition check_c09 (d : doc) (pd : pdoc) : nat :=
          then 0 else 2
   | _ => 0
   end.
+
+(* ---- C07 ---- *)
+Definition style_tokens (s : str) : option (list tok) := code_tokens border_codes s.
+
+Definition edge_is (side : cell -> option bord) (want : list tok) (r : row) : bool :=
+  all_b (fun c => match side c with Some b => tok_list_eqb (bd_style b) want | None => false end) (rw_cells r).
+
+Definition page_rows_obs (p : list item) : list row := rows_of p.
+
+Definition first_data_row (colnames : list str) (p : list item) : option row :=
+  first_some (fun i => match i with IRow r => match row_tag r with Some _ => Some r | None => None end | _ => None end) p.
+
+(* rtf_body.border_first for displayed column j, as the property states it (no user border_top override) *)
+Definition c07_body_border_first (a : attrs) (j : nat) : option str :=
+  match a_bfirst a with
+  | Some (row :: _) => match nth_error row j with Some s => Some s | None => nth_error row 0 end
+  | _ => None
+  end.
+
+(* clause ids: 1 top edge of the document's first table row; 2 bottom edge of its last table row;
+   3 bottom edge of the last table row before a page break; 4 top edge of the first data row of a page *)
+Definition check_c07 (d : doc) (pd : pdoc) : nat :=
+  match d_content d with
+  | CSingle f b =>
+    let pg := d_page d in
+    let pages := observed_pages pd in
+    let all_rows := rows_of (pd_items pd) in
+    let bf_page := match p_border_first pg with Some s => s | None => [] end in
+    let bl_page := match p_border_last pg with Some s => s | None => [] end in
+    let bl_body := match a_blast (b_attrs b) with Some ((s :: _) :: _) => s | _ => [] end in
+    let first_row_is_heading :=
+        match all_rows with
+        | r :: _ => match classify (f_cols f) (IRow r) with RHeading => true | _ => false end
+        | [] => true end in
+    let c1 := match all_rows, style_tokens bf_page with
+              | r :: _, Some st => nonempty bf_page && negb first_row_is_heading && negb (edge_is ce_bt st r)
+              | _, _ => false end in
+    let c2 := match last_opt all_rows, style_tokens bl_page with
+              | Some r, Some st => nonempty bl_page && negb (edge_is ce_bb st r)
+              | _, _ => false end in
+    let c3 := match style_tokens bl_body with
+              | Some st =>
+                nonempty bl_body
+                && any_b (fun p => match last_opt (rows_of p) with
+                                   | Some r => negb (edge_is ce_bb st r)
+                                   | None => false end) (removelast pages)
+              | None => false end in
+    let has_hdr_row := Nat.ltb 0 (n_header_rows d b) in
+    let c4 := any_b (fun ip =>
+                let '(idx, p) := ip in
+                match first_data_row (f_cols f) p with
+                | None => false
+                | Some r =>
+                  let on_first := Nat.eqb idx 0 in
+                  if on_first && negb has_hdr_row then
+                    match style_tokens bf_page with
+                    | Some st => nonempty bf_page && negb (edge_is ce_bt st r)
+                    | None => false end
+                  else
+                    (* body.border_first, column by column *)
+                    negb (all_b (fun jc =>
+                            let '(j, c) := jc in
+                            match c07_body_border_first (b_attrs b) j with
+                            | Some s => match style_tokens s, ce_bt c with
+                                        | Some st, Some bd => tok_list_eqb (bd_style bd) st
+                                        | _, _ => false end
+                            | None => true
+                            end) (combine (seq 0 (length (rw_cells r))) (rw_cells r)))
+                end) (combine (seq 0 (length pages)) pages) in
+    if c1 then 1 else if c2 then 2 else if c3 then 3 else if c4 then 4 else 0
+  | _ => 0
+  end.
